@@ -1,8 +1,81 @@
 //! Verification hook (compiled only with `--cfg quinn_rs_quinn_verif`).
+//!
+//! Component `timer_table`: the real `TimerTable` of connection/timer.rs. Instants are
+//! microseconds from a base taken once per case (`base + t`). Timers are indices into
+//! `Timer::VALUES` (0 LossDetection .. 8 MaxAckDelay).
+//!
+//! ops (one observation per op):
+//!   [0, timer, t]      set(timer, base + t)              -> [0]
+//!   [1, timer]         stop(timer)                       -> [0]
+//!   [2, timer]         get(timer)                        -> [t] | [-1]
+//!   [3]                next_timeout()                    -> [t] | [-1]
+//!   [4, timer, after]  is_expired(timer, base + after)   -> [0] | [1]
+//!   [5]                get of all nine timers            -> [t0, .., t8]  (-1 = unset)
+//! malformed op / timer index out of range / negative time    -> [-2] (state unchanged)
 #![allow(missing_docs, dead_code, unused_imports, unreachable_pub, clippy::all)]
 use super::{Ops, Outs};
+use crate::connection::timer::{Timer, TimerTable};
+use crate::{Duration, Instant};
+
+fn timer(i: i128) -> Option<Timer> {
+    if i < 0 {
+        return None;
+    }
+    Timer::VALUES.get(i as usize).copied()
+}
+
+fn at(base: Instant, t: i128) -> Option<Instant> {
+    if t < 0 || t > (1i128 << 50) {
+        return None;
+    }
+    Some(base + Duration::from_micros(t as u64))
+}
+
+fn rel(base: Instant, t: Option<Instant>) -> i128 {
+    match t {
+        None => -1,
+        Some(t) => t.duration_since(base).as_micros() as i128,
+    }
+}
 
 /// Interpret `ops` for component `comp`; `None` if `comp` is not served by this module.
-pub(crate) fn run(_comp: &str, _ops: &Ops) -> Option<Outs> {
-    None
+pub(crate) fn run(comp: &str, ops: &Ops) -> Option<Outs> {
+    if comp != "timer_table" {
+        return None;
+    }
+    let base = Instant::now();
+    let mut tb = TimerTable::default();
+    let mut outs = Outs::new();
+    for op in ops {
+        let bad = vec![-2];
+        let o = match op.as_slice() {
+            [0, i, t] => match (timer(*i), at(base, *t)) {
+                (Some(tm), Some(x)) => {
+                    tb.set(tm, x);
+                    vec![0]
+                }
+                _ => bad,
+            },
+            [1, i] => match timer(*i) {
+                Some(tm) => {
+                    tb.stop(tm);
+                    vec![0]
+                }
+                None => bad,
+            },
+            [2, i] => match timer(*i) {
+                Some(tm) => vec![rel(base, tb.get(tm))],
+                None => bad,
+            },
+            [3] => vec![rel(base, tb.next_timeout())],
+            [4, i, after] => match (timer(*i), at(base, *after)) {
+                (Some(tm), Some(x)) => vec![tb.is_expired(tm, x) as i128],
+                _ => bad,
+            },
+            [5] => Timer::VALUES.iter().map(|&tm| rel(base, tb.get(tm))).collect(),
+            _ => bad,
+        };
+        outs.push(o);
+    }
+    Some(outs)
 }
